@@ -67,6 +67,7 @@ func cmdSSA(args []string) {
 type fnResult struct {
 	Key   string
 	Err   error
+	Soft  []string // tool errors that do not prevent the other obligations from being generated
 	Obs   []*Oblig
 	FG    *FG
 }
@@ -140,6 +141,7 @@ func verifyFns(g *Gen, keys []string, outDir, tier string, seed int) []*fnResult
 			continue
 		}
 		r.Obs = fg.obligations()
+		r.Soft = fg.softErrs
 		all = append(all, r.Obs...)
 	}
 	dischargeAll(all, outDir, tier, seed)
@@ -209,6 +211,10 @@ func cmdVerify(args []string) {
 			fmt.Printf("ERROR %v\n", r.Err)
 			bad++
 			continue
+		}
+		for _, se := range r.Soft {
+			fmt.Printf("ERROR %s: %s\n", r.Key, se)
+			bad++
 		}
 		nok := 0
 		for _, o := range r.Obs {
